@@ -361,7 +361,18 @@ func candidateSkipRules(c *Ctx) {
 		return
 	}
 	n := 0
-	for _, l := range natLoops(fn) {
+	type famLoop struct {
+		fn *ssa.Function
+		l  *natLoop
+	}
+	var loops []famLoop
+	for _, f := range w.familyOf(fn) {
+		for _, l := range natLoops(f) {
+			loops = append(loops, famLoop{f, l})
+		}
+	}
+	for _, fl := range loops {
+		l, fn := fl.l, fl.fn
 		has := false
 		for b := range l.blocks {
 			for _, in := range b.Instrs {
